@@ -11,6 +11,8 @@ handle -1 is ``Interface``, handle -2 is ``implementedBy(object)``.
                                                       -> implementedBy(C)
   {"op": "obj",     "cls": h, "ifaces": [h..]}      ob = C(); directlyProvides(ob, *ifaces) -> providedBy(ob)
   {"op": "clsprov", "cls": h, "ifaces": [h..]}      directlyProvides(C, *ifaces) -> providedBy(C)
+  {"op": "super",   "cls": h, "this": h, "via": ..} implementedBy(super(T, C)) / providedBy(super(T, C())),
+                                                    kept by the driver like any other specification
   {"op": "classimpl", "cls": h, "ifaces": [h..]}    classImplements(C, *ifaces)  (no new handle)
   {"op": "setbases", "node": h, "bases": [h..]}     X.__bases__ = (...)          (no new handle)
   {"op": "drop", "node": h}                         forget every reference, gc   (no new handle)
@@ -209,6 +211,16 @@ class World:
             directlyProvides(cls, *[self.h(b) for b in op["ifaces"]])
             node = self.ensure(providedBy(cls))
             self.objs[len(self.handles)] = cls
+            self.handles.append(node)
+        elif kind == "super":
+            # a specification for a super object, HELD by the caller across later steps (the class
+            # specification only caches it until its next change)
+            cls, this = self.classes[op["cls"]], self.classes[op["this"]]
+            if op.get("via") == "providedBy":
+                spec = providedBy(super(this, cls()))
+            else:
+                spec = implementedBy(super(this, cls))
+            node = self.ensure(spec)
             self.handles.append(node)
         elif kind == "classimpl":
             cls = self.classes[op["cls"]]
